@@ -151,7 +151,10 @@ fn emit_lookaround_action_code<W: Write>(
     _defn: &r::ActionFnDefn,
     data: &r::LookaroundActionFnDefn,
 ) -> io::Result<()> {
-    rust!(rust, "#[allow(clippy::needless_lifetimes)]");
+    rust!(
+        rust,
+        "#[allow(clippy::needless_lifetimes, clippy::clone_on_copy)]"
+    );
     rust.fn_header(
         &r::Visibility::Priv,
         format!("{}action{}", grammar.prefix, index),
@@ -179,11 +182,12 @@ fn emit_lookaround_action_code<W: Write>(
             // at EOF, so taker the lookbehind (end of last
             // pushed token); if that is missing too, then
             // supply default.
-            rust!(rust, "*{}lookahead", grammar.prefix);
+            // (a location type is only required to be `Clone`)
+            rust!(rust, "{}lookahead.clone()", grammar.prefix);
         }
         r::LookaroundActionFnDefn::Lookbehind => {
             // take lookbehind or supply default
-            rust!(rust, "*{}lookbehind", grammar.prefix);
+            rust!(rust, "{}lookbehind.clone()", grammar.prefix);
         }
     }
     rust!(rust, "}}");
